@@ -71,6 +71,7 @@ fn main() {
 		let v = match args[1].as_str() {
 			"worker" => rt.block_on(run_worker(case.clone())),
 			"wx" => rt.block_on(run_wx(case.clone())),
+			"fsreal" => rt.block_on(run_fsreal(case.clone(), &args[3])),
 			o => panic!("subcommand {o}"),
 		};
 		emit(&v);
@@ -258,4 +259,67 @@ async fn run_wx(case: Value) -> Value {
 	let res = if finished { format!("{:?}", main.await.map(|r| r.map_err(|e| e.to_string()))) } else { main.abort(); "running".into() };
 	let log = sc.log.lock().unwrap().clone();
 	json!({"id": case["id"], "log": log, "main_finished": finished, "main_result": res})
+}
+
+
+// ---------------------------------------------------------------- C01: real filesystem operations under a real watcher
+
+#[derive(Debug)]
+struct TapFilter(Arc<Mutex<Vec<Value>>>, Instant);
+impl Filterer for TapFilter {
+	fn check_event(&self, event: &Event, _p: Priority) -> Result<bool, RuntimeError> {
+		let key = format!("{:?}", event.tags);
+		let pass = !event.paths().any(|(p, _)| p.to_string_lossy().contains("rejected"));
+		self.0.lock().unwrap().push(json!({"k": "filter", "t": ms(self.1), "key": key, "pass": pass}));
+		Ok(pass)
+	}
+}
+
+async fn run_fsreal(case: Value, base: &str) -> Value {
+	let t0 = Instant::now();
+	let id = case["id"].as_u64().unwrap();
+	let dir = std::path::Path::new(base).join(format!("f{id}"));
+	let _ = std::fs::remove_dir_all(&dir);
+	std::fs::create_dir_all(&dir).unwrap();
+	let dir = std::fs::canonicalize(&dir).unwrap();
+	let log: Arc<Mutex<Vec<Value>>> = Arc::new(Mutex::new(vec![]));
+	let config = Config::default();
+	config.throttle(Duration::from_millis(case["throttle_ms"].as_u64().unwrap_or(50)));
+	config.pathset([dir.clone()]);
+	config.file_watcher(if case["watcher"] == "poll" { watchexec::sources::fs::Watcher::Poll(Duration::from_millis(40)) } else { watchexec::sources::fs::Watcher::Native });
+	config.filterer(TapFilter(log.clone(), t0));
+	let log2 = log.clone();
+	config.on_action(move |action| {
+		let keys: Vec<String> = action.events.iter().map(|e| format!("{:?}", e.tags)).collect();
+		log2.lock().unwrap().push(json!({"k": "batch", "t": ms(t0), "keys": keys}));
+		action
+	});
+	let log3 = log.clone();
+	config.on_error(move |hook: watchexec::ErrorHook| {
+		log3.lock().unwrap().push(json!({"k": "error", "t": ms(t0), "e": hook.error.to_string()}));
+	});
+	let wx = Watchexec::with_config(config).unwrap();
+	let main = wx.main();
+	tokio::time::sleep(Duration::from_millis(250)).await;       // let the watcher register
+	for op in case["ops"].as_array().unwrap() {
+		let at = Duration::from_millis(op["at_ms"].as_u64().unwrap());
+		let el = t0.elapsed();
+		if at > el {
+			tokio::time::sleep(at - el).await;
+		}
+		let p = dir.join(op["path"].as_str().unwrap());
+		let r = match op["op"].as_str().unwrap() {
+			"mkdir" => std::fs::create_dir_all(&p).map(|_| ()),
+			"create" | "write" => std::fs::write(&p, format!("{}", ms(t0))).map(|_| ()),
+			"remove" => std::fs::remove_file(&p),
+			"rmdir" => std::fs::remove_dir_all(&p),
+			"rename" => std::fs::rename(&p, dir.join(op["to"].as_str().unwrap())),
+			o => panic!("fs op {o}"),
+		};
+		log.lock().unwrap().push(json!({"k": "op", "t": ms(t0), "op": op["op"], "path": p.to_string_lossy(), "ok": r.is_ok()}));
+	}
+	tokio::time::sleep(Duration::from_millis(case["tail_ms"].as_u64().unwrap_or(500))).await;
+	main.abort();
+	let logv = log.lock().unwrap().clone();
+	json!({"id": id, "log": logv, "dir": dir.to_string_lossy()})
 }
